@@ -263,6 +263,9 @@ def parse_hops(s):
         op = dict(k=p[0], at=int(p[1]), key=int(p[2]))
         if p[0] == "s":
             op.update(rcode=int(p[3]), tc=p[4] == "1", ttls=[] if p[5] == "x" else [int(x) for x in p[5].split("_")])
+        if p[0] == "a":      # direct MemoryCache.Store: storedTime = now - age, expireTime = now + remain
+            op.update(age=int(p[3]), remain=int(p[4]), nx=p[5] == "1", rcode=0, tc=False,
+                      ttls=[] if p[6] == "x" else [int(x) for x in p[6].split("_")])
         ops.append(op)
     return ops
 
@@ -469,6 +472,259 @@ def c08_hist_classify(line, res):
     return "hits=%s misses=%s" % ("0" if h == 0 else "1-2" if h < 3 else "3+", "0" if m == 0 else "1-2" if m < 3 else "3+")
 
 
+# ---------------- storeat (round 2): direct MemoryCache.Store with storedTime in the past (redis promotion path)
+def c08_storeat_oracle(line, res):
+    _LAST["storeat"] = line
+    return c08_storeat_oracle1(line, res)
+
+
+def c08_storeat_oracle1(line, res):
+    """the property on what was served, independent of the model: a hit comes from an earlier store of the key; an
+    entry stored with (storedTime, expireTime) is not served at expireTime + 2 s or later WHATEVER storedTime was;
+    served TTLs <= max 1 (ttl - whole seconds since storedTime)"""
+    if res.startswith("HARNESS-ERROR"):
+        return None
+    f = gens.fields(line)
+    ops = parse_hops(f["ops"])
+    toks = res.split(" ")
+    if len(toks) != len(ops):
+        return None
+    mx = int(f["maxttl"])
+    for i, (op, tok) in enumerate(zip(ops, toks)):
+        if op["k"] != "g" or not tok.startswith("H"):
+            continue
+        src = int(tok[1:].split(":")[0])
+        if not (0 <= src < i) or ops[src]["k"] not in ("s", "a") or ops[src]["key"] != op["key"]:
+            return "get #%d served a message no Store of this key supplied (%s)" % (i, tok)
+        so = ops[src]
+        if so["k"] == "s":
+            if so["tc"]:
+                return "get #%d served a truncated response (store #%d)" % (i, src)
+            L = prop_lifetime_ms(mx, so["rcode"], so["ttls"])
+            age = 0
+        else:
+            L = so["remain"]
+            age = so["age"]
+        late = op["at"] - so["at"] - L          # ms after expireTime
+        if late - SLACK >= 2000:
+            return ("get #%d at +%d ms served the entry of store #%d %d ms after its expireTime (storedTime %d ms "
+                    "before the store, expireTime %d ms after it; 2 s allowance)" % (i, op["at"], src, late, age, L))
+        got = [int(x) for x in tok.split(":")[1].split("_")] if tok.split(":")[1] else []
+        if len(got) != len(so["ttls"]):
+            return "get #%d: record count differs from the stored response" % i
+        dmin = max(0, (op["at"] - so["at"] + age - SLACK) // 1000)
+        for t0, t1 in zip(so["ttls"], got):
+            if t1 > max(1, t0 - dmin):
+                return "get #%d: served TTL %d > max 1 (%d - %d whole seconds since storedTime)" % (i, t1, t0, dmin)
+    return None
+
+
+STOREAT_AGES = [0, 0, 400, 2400, 4500, 10500, 61300, 3600400, 86400600, 31536000500]
+STOREAT_REMAIN = [400, 700, 1300, 1300, 1700, 2300, 2600, 3400]
+STOREAT_TTLS = [[3, 3, 7], [300], [60, 4294967295], [2, 100000], [0, 50]]
+
+
+def storeat_ok_times(ops):
+    """served TTLs must not hinge on < 200 ms of scheduling: every (store, later op of the key) pair keeps the time since
+    the entry's storedTime away from whole seconds"""
+    for i, a in enumerate(ops):
+        if a["k"] == "g":
+            continue
+        age = a.get("age", 0)
+        for b in ops[i + 1:]:
+            if b["key"] != a["key"]:
+                continue
+            fr = (b["at"] - a["at"] + age) % 1000
+            if fr < 200 or fr > 800:
+                return False
+            fr = (b["at"] - a["at"]) % 1000          # and the store-to-op distance itself (expiry side)
+            if fr < 150 or fr > 850:
+                return False
+    return True
+
+
+def fmt_ops2(ops):
+    out = []
+    for o in ops:
+        if o["k"] == "a":
+            out.append("a.%d.%d.%d.%d.%d.%s" % (o["at"], o["key"], o["age"], o["remain"], 1 if o["nx"] else 0,
+                                                  "_".join(str(t) for t in o["ttls"]) if o["ttls"] else "x"))
+        else:
+            out.append(fmt_ops([o]))
+    return ",".join(out)
+
+
+def c08_storeat_gen(rng, tier):
+    """histories on the real clock in which entries enter the memory cache through MemoryCache.Store with a storedTime in
+    the past (0.4 s .. 1 year) and 0.4 - 3.4 s of lifetime left, mixed with ordinary cacheCtl.Store calls (a promotion is
+    set-if-absent: it must not displace them) and lookups before expireTime, within 2 s after it and later"""
+    out = []
+    want = budget(tier, 60, 1000)
+    n = tries = 0
+    while n < want and tries < want * 400:
+        tries += 1
+        at = 0
+        ops = []
+        stores = 0
+        for i in range(rng.randrange(3, 10)):
+            key = rng.choice([1, 1, 1, 2])
+            r = rng.random()
+            if i == 0 or (r < 0.3 and stores < 5):
+                ops.append(dict(k="a", at=at, key=key, age=rng.choice(STOREAT_AGES), remain=rng.choice(STOREAT_REMAIN),
+                                nx=rng.random() < 0.7, ttls=rng.choice(STOREAT_TTLS)))
+                stores += 1
+            elif r < 0.4 and stores < 5:
+                ops.append(rand_store(rng, at, key))
+                stores += 1
+            else:
+                ops.append(dict(k="g", at=at, key=key))
+            at += rng.choice([250, 300, 450, 500, 700, 750, 1250, 1500, 1750, 2250, 2500])
+            if at > 7000:
+                break
+        # most histories get a probe well after expireTime + 2 s of one of their direct stores (that is where an entry
+        # whose lifetime was counted from storedTime, or restarted, would still be served)
+        if rng.random() < 0.8:
+            a = rng.choice([o for o in ops if o["k"] == "a"])
+            probe = a["at"] + a["remain"] + 2000 + SLACK + rng.choice([150, 400, 900, 1600])
+            ops.append(dict(k="g", at=probe, key=a["key"]))
+            ops.sort(key=lambda o: o["at"])           # stable: ops at equal instants keep their order
+            if any(x["at"] == y["at"] for x, y in zip(ops, ops[1:])):
+                continue
+        def probed(i, a):
+            return any(b["k"] == "g" and b["key"] == a["key"] for b in ops[i + 1:])
+        if not any(o["k"] == "a" and probed(i, o) for i, o in enumerate(ops)) or not storeat_ok_times(ops):
+            continue
+        out.append("a%d maxttl=%d ops=%s" % (n, rng.choice([0, 0, 0, 2]), fmt_ops2(ops)))
+        n += 1
+    return out
+
+
+def c08_storeat_classify(line, res):
+    ops = parse_hops(gens.fields(line)["ops"])
+    toks = res.split(" ")
+    cls = set()
+    if len(toks) == len(ops):
+        for i, (op, tok) in enumerate(zip(ops, toks)):
+            if op["k"] != "g":
+                continue
+            last = None
+            for j in range(i):
+                if ops[j]["key"] == op["key"] and ops[j]["k"] == "a":
+                    last = ops[j]
+            if last is None:
+                continue
+            late = op["at"] - last["at"] - last["remain"]
+            cls.add(("hit" if tok.startswith("H") else "miss") + ("-before-expire" if late < 0 else "-within-2s" if late < 2000 else "-after-expire+2s"))
+    return ",".join(sorted(cls)) or "no-get-after-storeat"
+
+
+# ---------------- promote (round 2): the real cacheCtl.Get with memory + redis backend (in-process RESP2 fake)
+def parse_pops(s):
+    ops = []
+    for tok in s.split(","):
+        p = tok.split(".")
+        op = dict(k=p[0], at=int(p[1]), key=int(p[2]))
+        if p[0] == "s":
+            op.update(ttls=[] if p[3] == "x" else [int(x) for x in p[3].split("_")], age=0)
+        elif p[0] == "r":
+            op.update(age=int(p[3]), remain=int(p[4]), ttls=[] if p[5] == "x" else [int(x) for x in p[5].split("_")])
+        ops.append(op)
+    return ops
+
+
+def c08_promote_oracle(line, res):
+    _LAST["promote"] = line
+    return c08_promote_oracle1(line, res)
+
+
+def c08_promote_oracle1(line, res):
+    """the property on what cacheCtl.Get served, whichever backend it came from: the answer was stored for this key
+    (by this proxy: op s, or by another instance sharing the redis: op r); it is not served at fetch + lifetime + 2 s
+    or later - in particular not because it was copied into the memory cache late in its life; served TTLs <= max 1
+    (ttl - whole seconds since the fetch)"""
+    if res.startswith("HARNESS-ERROR"):
+        return None
+    f = gens.fields(line)
+    ops = parse_pops(f["ops"])
+    toks = res.split(" ")
+    if len(toks) != len(ops):
+        return None
+    mx = int(f["maxttl"])
+    for i, (op, tok) in enumerate(zip(ops, toks)):
+        if op["k"] != "g" or not tok.startswith("H"):
+            continue
+        src = int(tok[1:].split(":")[0])
+        if not (0 <= src < i) or ops[src]["k"] not in ("s", "r") or ops[src]["key"] != op["key"]:
+            return "get #%d served a message nobody stored for this key (%s)" % (i, tok)
+        so = ops[src]
+        L = prop_lifetime_ms(mx, 0, so["ttls"]) if so["k"] == "s" else so["remain"]
+        late = op["at"] - so["at"] - L
+        if late - SLACK >= 2000:
+            return ("get #%d at +%d ms served the answer of op #%d %d ms after the end of its lifetime (fetched %d ms "
+                    "before op #%d, %d ms of lifetime left then; 2 s allowance)" % (i, op["at"], src, late, so["age"], src, L))
+        got = [int(x) for x in tok.split(":")[1].split("_")] if tok.split(":")[1] else []
+        if len(got) != len(so["ttls"]):
+            return "get #%d: record count differs from the stored response" % i
+        dmin = max(0, (op["at"] - so["at"] + so["age"] - SLACK) // 1000)
+        for t0, t1 in zip(so["ttls"], got):
+            if t1 > max(1, t0 - dmin):
+                return "get #%d: served TTL %d > max 1 (%d - %d whole seconds since the fetch)" % (i, t1, t0, dmin)
+    return None
+
+
+def c08_promote_gen(rng, tier):
+    """shape A: Store (lifetime 5-7 s) ... the memory cache loses the key late in the lifetime ... Get (redis hit,
+    promoted) ... probes after fetch + lifetime + 2 s.  shape B: an answer another instance fetched 0.4 s .. 1 year ago
+    with 1.3-3.4 s left sits in redis; Get (promoted); probes.  All on the real clock; ~10 s per case, run in parallel."""
+    out = []
+    for n in range(budget(tier, 16, 240)):
+        ops = []
+        if n % 2 == 0:
+            L = rng.choice([5, 6, 7])
+            d = rng.choice([3300, 3700, L * 1000 - 1300])
+            ttls = [L, rng.choice([300, 86400])]
+            ops.append("s.0.1.%s" % "_".join(map(str, ttls)))
+            ops.append("g.%d.1" % rng.choice([200, 600]))
+            ops.append("x.%d.1" % d)
+            ops.append("g.%d.1" % (d + rng.choice([150, 300])))
+            if rng.random() < 0.5:
+                ops.append("g.%d.1" % (d + 800))
+            end = L * 1000 + 2000 + SLACK
+            ops.append("g.%d.1" % (end + rng.choice([150, 500])))
+            if d + L * 1000 - 1200 > end + 900:
+                ops.append("g.%d.1" % (d + L * 1000 - 1200))       # an entry restarted at promotion would still be live
+        else:
+            age = rng.choice([400, 4500, 10500, 61300, 3600400, 86400600, 31536000500])
+            remain = rng.choice([1300, 1700, 2300, 2600, 3400])
+            ttls = rng.choice([[300], [60, 4294967295], [100000, 7]])
+            ops.append("r.0.1.%d.%d.%s" % (age, remain, "_".join(map(str, ttls))))
+            g1 = rng.choice([200, 500, remain - 600])
+            ops.append("g.%d.1" % g1)
+            if rng.random() < 0.5:
+                ops.append("x.%d.1" % (g1 + 150))
+                ops.append("g.%d.1" % (g1 + 300))
+            end = remain + 2000 + SLACK
+            ops.append("g.%d.1" % (end + rng.choice([150, 600])))
+            ops.append("g.%d.1" % (end + rng.choice([1500, 2600])))
+        out.append("pr%d maxttl=0 ops=%s" % (n, ",".join(ops)))
+    return out
+
+
+def c08_promote_classify(line, res):
+    ops = parse_pops(gens.fields(line)["ops"])
+    toks = res.split(" ")
+    if len(toks) != len(ops):
+        return res.split(" ")[0][:24]
+    cls = set()
+    dropped = False
+    for op, tok in zip(ops, toks):
+        if op["k"] in ("x", "r"):
+            dropped = True               # from here on a hit can only come through redis (promotion)
+        if op["k"] == "g":
+            cls.add(("hit" if tok.startswith("H") else "miss") + ("-via-redis" if dropped else "-memory"))
+    return ("own-store " if ops[0]["k"] == "s" else "foreign-store ") + ",".join(sorted(cls))
+
+
 # ---------------- routerhist (real router, real upstream over TCP, scripted upstream server)
 BEH_L = dict(nx=30000, nd=30000, sf=1000, rf=5000)
 
@@ -601,8 +857,11 @@ C08_TRUST = [
     "is present, expired nodes removed only by the cleanup goroutine; watched by kind cachehist on the real clock",
     "C08: the cache key and the value encoding (pack + s2) are C07's; here keys are opaque and the stored value is "
     "the message",
-    "C08: redis backend not exercised (no server in the sandbox); uint32(float64 seconds) modelled as truncation mod "
-    "2^32 (exact below 2^24 s; amd64 conversion through int64)",
+    "C08: no redis server exists in the sandbox: kind promote runs the real cache.RedisCache (rueidis, RESP2, no client "
+    "cache) against an in-process fake (PING, GET, SET [NX] PX with exact ms expiry on the process clock); redis is "
+    "modelled (Cache/CacheTier.v) as a map with a deadline per key that may forget any key; clock skew between hosts "
+    "sharing a redis is outside the model's assumptions; uint32(float64 seconds) modelled as truncation mod 2^32 (exact "
+    "below 2^24 s; amd64 conversion through int64)",
 ]
 
 PROPS["C08"] = dict(
@@ -621,6 +880,13 @@ PROPS["C08"] = dict(
              compare=retrying_compare("routerhist", c08_router_oracle1),
              classify=c08_router_classify, shards=4,
              nontrivial=lambda l, r: r.startswith("U") or r.startswith("C"), timeout=600),
+        dict(name="storeat", gen=c08_storeat_gen, oracle=c08_storeat_oracle,
+             compare=retrying_compare("storeat", c08_storeat_oracle1),
+             classify=c08_storeat_classify, shards=4,
+             nontrivial=lambda l, r: "H" in r or "M" in r, timeout=600),
+        dict(name="promote", gen=c08_promote_gen, oracle=c08_promote_oracle, classify=c08_promote_classify,
+             compare=retrying_compare("promote", c08_promote_oracle1),
+             nontrivial=lambda l, r: "H" in r, timeout=900),
     ],
     rule="policy: the real initCache + cacheCtl.Store on a real MemoryCache, read back with cacheCtl.Get: every rcode 0..15 "
          "x {record-less, OPT only, TTL catalogue incl. 0, 1, 2^31, 2^32-1}, 17 maximum-TTL settings (default, caps, "
@@ -633,7 +899,13 @@ PROPS["C08"] = dict(
          "routerhist: a real router (real run(), real tcp upstream transport, forward-all rule, memory cache) fed client "
          "queries through handleServerReq against a scripted upstream (positive / NXDOMAIN / NODATA / SERVFAIL / REFUSED / "
          "TC / connection closed); observed per query: upstream contacted or not, rcode, TC, answer TTLs; the model walks "
-         "handle_req_store (only miss + reply stores). distinct = distinct case line",
+         "handle_req_store (only miss + reply stores). storeat: real-clock histories with direct MemoryCache.Store calls "
+         "(what cacheCtl.Get does when it promotes a redis hit) whose storedTime lies 0 s .. 1 year in the past and whose "
+         "expireTime is 0.4-3.4 s ahead, set-if-absent or not, mixed with ordinary stores, probed before expireTime, within "
+         "2 s after it and later; model event EvStoreAt. promote: the real cacheCtl with memory + redis backend (in-process "
+         "RESP2 fake): own stores whose memory copy is dropped late in the lifetime and answers another instance fetched up "
+         "to a year ago, read back through cacheCtl.Get (redis hit, promotion), probed after fetch + lifetime + 2 s; model "
+         "Cache/CacheTier.v over 20 ticker phases x 40 Unix-second phases. distinct = distinct case line",
     assumptions=["otter clock model (see trusted base); cachehist ops are scheduled >= 200 ms away from whole-second "
                  "distances to the stores they depend on, and a case whose ops ran > 150 ms late is re-run once, then "
                  "reported as a harness note, never as an alarm; a real-clock case that passes the property oracle but "
@@ -643,5 +915,7 @@ PROPS["C08"] = dict(
     trusted=C08_TRUST,
     level_note="C08 proof: TTL ageing, lifetime table (no overflow up to 2^32-1), never-cached and set-if-absent "
                "theorems hold for all messages / histories of the model; the expiry bound is proved under the stated "
-               "otter clock model (real clocks are sampled by kind cachehist); redis path not exercised",
+               "otter clock model for every storedTime (direct MemoryCache.Store, promotion of a redis hit) and for the "
+               "two-tier model memory + redis (real clocks are sampled by kinds cachehist, storeat, promote; redis is an "
+               "in-process fake)",
 )
